@@ -369,3 +369,68 @@ def simplify_trace(H):
 
     H.prove(not any(n in _INHERITABLE_ATTRIB for n in root.attrib) and root.attrib.get("viewBox") == "0 0 100 100", "simplify.root_keeps_no_inheritable_attribute", detail=str(dict(root.attrib)))
     H.prove(svg.elements is None, "simplify.shape_cache_invalidated")
+
+
+# ------------------------------------------------------------------------------------------------ copying form of every public method
+_COPYING = ("absolute", "shapes_to_paths", "expand_shorthand", "apply_style_attributes", "resolve_use", "simplify", "clip_to_viewbox", "evenodd_to_nonzero_winding",
+            "round_floats", "remove_empty_subpaths", "remove_unpainted_shapes", "remove_nonsvg_content", "remove_processing_instructions", "remove_anonymous_symbols",
+            "remove_title_meta_desc", "set_attributes", "remove_attributes", "normalize_opacity", "resolve_nested_svgs")
+
+
+@obligation(("C15",), "state.copy_form", split=("method", _COPYING), functions=["svg.SVG." + m for m in _COPYING])
+def copy_form(H):
+    """Every public method with an `inplace` option, called WITHOUT it: the receiver is cloned first (through _clone, which
+    flushes pending shape edits - state.typestate / histories), the clone is converted in place with the caller's other
+    arguments unchanged, the clone is returned and nothing else touches the receiver.  The real method body is run with
+    every other SVG method recorded.  Also: the set of methods with an `inplace` option is the set listed here."""
+    import inspect
+
+    name = H.case("method", _COPYING)
+    if H.mode == "concrete":
+        have = sorted(n for n, f in SVG.__dict__.items() if isinstance(f, types.FunctionType) and "inplace" in inspect.signature(f).parameters and n != "topicosvg")
+        H.prove(have == sorted(_COPYING), "copy_form.every_method_with_inplace_is_listed", detail=str(sorted(set(have) ^ set(_COPYING))))
+        src = SVG.fromstring('<svg xmlns="http://www.w3.org/2000/svg" viewBox="0 0 9 9"><rect width="2.25" height="2" style="fill:red" opacity="1.0"/><!--c--><title>t</title></svg>')
+        before = src.tostring()
+        args = {"round_floats": (1,), "set_attributes": ((("id", "x"),),), "remove_attributes": (("viewBox",),)}.get(name, ())
+        out = getattr(src, name)(*args)
+        H.prove(out is not src and src.tostring() == before, "copy_form.receiver_left_alone", detail=name)
+        return
+    fake_tree.install(H)
+    have = sorted(n for n, f in SVG.__dict__.items() if isinstance(f, types.FunctionType) and "inplace" in inspect.signature(f).parameters and n != "topicosvg")
+    H.prove(have == sorted(_COPYING), "copy_form.every_method_with_inplace_is_listed", detail=str(sorted(set(have) ^ set(_COPYING))))
+    svg = SVG(FakeElement(SVGNS + "svg", {}))
+    clone = SVG(FakeElement(SVGNS + "svg", {}))
+    trace = []
+    _record_all_methods(H, SVG, trace, {"_clone": lambda s: clone}, skip=(name,))
+    real = SVG.__dict__[name]
+    nested = []
+
+    def rec(I, self_, *a, **k):
+        if not nested:
+            nested.append(1)
+            return I.call_closure(I.closure_of(real), (self_,) + a, k)
+        trace.append((name, self_, a, k))
+        return self_
+
+    H.override(real, rec)
+    nd = H.int("ndigits")
+    marker = (("data-x", "1"),)
+    args = {"round_floats": (nd,), "set_attributes": (marker,), "remove_attributes": (("id", "class"),)}.get(name, ())
+    kwargs = {"xpath": "//svg:g"} if name in ("set_attributes", "remove_attributes") else {}
+    res, e = H.catch(getattr(SVG, name), svg, *args, **kwargs)
+    H.prove(e is None and res is clone, "copy_form.returns_the_converted_clone", detail=repr(e))
+    names = [t[0] for t in trace]
+    ok = names[:1] == ["_clone"] and trace[0][1] is svg and names[1:] == [name] and trace[1][1] is clone
+    H.prove(ok, "copy_form.clones_then_converts_the_clone", detail=str(names))
+    if ok:
+        a, k = trace[1][2], dict(trace[1][3])
+        H.prove(k.pop("inplace", None) is True, "copy_form.clone_converted_in_place")
+        # the other arguments arrive unchanged (positionally or by keyword)
+        sig = list(inspect.signature(real).parameters)[1:]
+        bound = dict(zip(sig, a))
+        bound.update(k)
+        want = dict(zip(sig, args))
+        want.update(kwargs)
+        same = all(n in bound and (bound[n] is v or _same(H, bound[n], v) is True or (isinstance(v, (tuple, str)) and bound[n] == v)) for n, v in want.items())
+        H.prove(same and set(bound) - {"inplace"} <= set(want) | set(), "copy_form.other_arguments_forwarded_unchanged", detail=f"{bound} vs {want}")
+    H.prove(all(t[1] is not svg or t[0] == "_clone" for t in trace), "copy_form.receiver_left_alone", detail=str(names))
